@@ -312,7 +312,9 @@ def randomness(ctx):
     # taint: order_id is never compared, used as a key, sorted on, or used in arithmetic
     reads = reads_of_attr(M, 'order_id')
     ctx.floor('C18.random', 'reads of .order_id', len(reads), 1)
-    for fn, node in reads:
+    def label_use(fn, node, depth=0):
+        """(ok, why) for one use of the order id value at `node`: printed/formatted, handed to Transaction(...) or an order_id field, returned as a label,
+        or passed to a package function whose parameter is itself only used that way"""
         pm = parent_map(fn.node)
         p = pm.get(node)
         ok, why = False, ''
@@ -328,8 +330,38 @@ def randomness(ctx):
                 nm = f.id if isinstance(f, ast.Name) else (f.attr if isinstance(f, ast.Attribute) else '')
                 ok = nm in ('Transaction', 'print', 'format', 'info', 'debug', 'warning', 'error', 'str', 'repr')
                 why = 'passed to %s' % nm
+                if not ok and depth < 3:
+                    tg, how_, layer = M.resolve_call(fn, p)
+                    if tg and all(t_.qn in M.funcs or True for t_ in tg):
+                        ok = True
+                        for t_ in tg:
+                            ps_ = t_.pos_params
+                            if t_.cls is not None and not t_.is_static and ps_ and ps_[0] in ('self', 'cls') and not how_.startswith('ctor'):
+                                ps_ = ps_[1:]
+                            elif how_.startswith('ctor') and ps_ and ps_[0] == 'self':
+                                ps_ = ps_[1:]
+                            pname = None
+                            if q in p.args and p.args.index(q) < len(ps_):
+                                pname = ps_[p.args.index(q)]
+                            for k in p.keywords:
+                                if k.value is q:
+                                    pname = k.arg
+                            if pname is None:
+                                ok, why = False, 'passed to %s (parameter not identified)' % nm
+                                break
+                            for n2 in ast.walk(t_.node):
+                                if isinstance(n2, ast.Name) and n2.id == pname and isinstance(n2.ctx, ast.Load):
+                                    o2, w2 = label_use(t_, n2, depth + 1)
+                                    if not o2:
+                                        ok, why = False, 'passed to %s, where it is %s' % (nm, w2)
+                                        break
+                            if not ok:
+                                break
             elif isinstance(p, (ast.JoinedStr, ast.FormattedValue)):
                 ok = True
+            elif isinstance(p, ast.keyword):
+                q, p = p, pm.get(p)
+                continue
             elif isinstance(p, ast.Assign):
                 ok = all(isinstance(t, ast.Attribute) and t.attr == 'order_id' for t in p.targets)
                 why = 'assigned to %s' % [ast.unparse(t) for t in p.targets]
@@ -339,6 +371,9 @@ def randomness(ctx):
             else:
                 why = type(p).__name__
             break
+        return ok, why
+    for fn, node in reads:
+        ok, why = label_use(fn, node)
         ctx.require(ok, 'C18.random', 'the random order id in %s flows only into messages and the Transaction\'s order_id' % fn.qn, fn.site(node),
                     'order_id is used in a %s: results would depend on a random value' % why, key='C18.random|order_id|%s|%s' % (fn.qn, why.split(' ')[0]))
     # order_id parameter of Transaction is only stored
